@@ -293,12 +293,45 @@ def settled_after_effect(facts, body):
     return res
 
 
+def maybe_zero_moves(facts, body, eff):
+    """consume/produce sites whose count is `min(len(W1), len(W2), ..)` / `len(W)` with some window NOT established non-empty
+    by a dominating guard: on the run where that window is empty they move nothing, so they do not count as progress for
+    the idle-Again question (sites with any other count expression are left as progress)"""
+    from .rules import c09
+    out = set()
+    for bb, t in body.calls():
+        qs = Body.callee_qs(t)
+        if not any(q in (CONSUME, PRODUCE) for q in qs) or len(t["args"]) < 2 or bb not in eff.progress:
+            continue
+        cnt = peel(body.operand_expr(t["args"][1]), through_try=False)
+        wins = []
+        if cnt.k == "call" and (cnt.q in MIN_CALLS or cnt.rq in MIN_CALLS):
+            ok = True
+            for a in cnt.args:
+                w = c09.len_of_window(a)
+                if w:
+                    wins.append(w[0])
+                else:
+                    ok = False
+            if not ok:
+                continue
+        else:
+            w = c09.len_of_window(cnt)
+            if not w:
+                continue
+            wins.append(w[0])
+        lbs = c09.window_lower_bounds(body, bb, facts)
+        if any(lbs.get(w, 0) < 1 for w in wins):
+            out.add(bb)
+    return out
+
+
 def idle_again_paths(facts, body):
     """[(ret_bb, path_desc)] for `return Ok(Again)` definitions reachable from entry on a path with no
     possible progress at all."""
     eff = Effects(facts, body)
     out = []
-    prog = set(eff.progress)
+    prog = set(eff.progress) - maybe_zero_moves(facts, body, eff)
     for bb, verdict, e in verdict_defs(body):
         if verdict != "Again":
             continue
